@@ -38,6 +38,10 @@ func init() {
 					Quick:    {Depth: 3, Budget: 100 * time.Second, ReplayEvery: 16},
 					Thorough: {Depth: 5, Budget: 8 * time.Minute, ReplayEvery: 32, MaxStates: 400000},
 				}},
+				{S: withAnnotate(c14InFlight(), annotateHalt), Opt: map[Tier]Options{
+					Quick:    {Depth: 4, Budget: 60 * time.Second, ReplayEvery: 16},
+					Thorough: {Depth: 7, Budget: 8 * time.Minute, ReplayEvery: 32, MaxStates: 400000},
+				}},
 				{S: withAnnotate(unionScenario(unionOpts{name: "union-atomic", multi: true}), annotateHalt), Opt: map[Tier]Options{
 					Quick:    {Depth: 3, Budget: 100 * time.Second, ReplayEvery: 16},
 					Thorough: {Depth: 5, Budget: 8 * time.Minute, ReplayEvery: 32, MaxStates: 500000},
@@ -48,6 +52,44 @@ func init() {
 			Assumptions: []string{"32-byte (group-policy / ICA) purchasers are not exercised: no key can sign for them without modelling x/group", "Known findings F14/F15 are listed in known_findings.json"},
 		}
 	}
+}
+
+// c14InFlight: everything that can happen to the parties of an order while it travels from its first
+// accept through the tally to the minting block (two signers, one accept suffices): late decisions,
+// whitelist changes, threshold changes, further orders - one begin blocker after the other.
+func c14InFlight() *Scenario {
+	far := GenesisTime.Unix() + 1_000_000_000
+	g := BaseGenesis(
+		mc.AcctSpec{Name: "S1", Coins: Coins(1000, 0)}, mc.AcctSpec{Name: "S2", Coins: Coins(1000, 0)},
+		mc.AcctSpec{Name: "P1", Coins: Coins(1000, 0)},
+		mc.AcctSpec{Name: "PV", Kind: mc.Continuous, Coins: Coins(1000, 0), Vesting: Coins(1000, 0), VestEnd: far},
+	)
+	g.EntSigner, g.MinAccept, g.Limit, g.Whitelist = []string{"S1", "S2"}, 1, 100, []string{"P1", "PV"}
+	s := &Scenario{Name: "orders-in-flight", Genesis: g, KeyTimeNs: false}
+	ms := time.Millisecond
+	pre := func(a Action) {
+		a.Enabled = nil
+		s.Actions = append(s.Actions, a)
+		s.Prefix = append(s.Prefix, a.Name)
+	}
+	pre(raise("P1", 7, 4))
+	pre(raise("PV", 11, 4))
+	pre(decide("S1", 1, 2))
+	wl := func(name, to string, n uint64) Action {
+		return Action{Name: name, Dt: ms, Txs: tx1(model.Msg{Kind: model.EntWhitelist, From: "S1", To: to, N: n})}
+	}
+	for _, a := range []Action{decide("S2", 1, 2), decide("S2", 1, 3), decide("S1", 2, 2), decide("S1", 2, 3), decide("S2", 2, 2)} {
+		a.Enabled = nil
+		s.Actions = append(s.Actions, a)
+	}
+	s.Actions = append(s.Actions,
+		wl("whitelist(S1,-P1)", "P1", 2), wl("whitelist(S1,+P1)", "P1", 1), wl("whitelist(S1,-PV)", "PV", 2),
+		entGov("gov(signers=S1,S2;min=2)", "S1,S2", 2, 100, "gov", 1),
+		entGov("gov(signers=S2;min=1)", "S2", 1, 100, "gov", 1),
+		Action{Name: "tick", Dt: ms},
+		Action{Name: "wait(1m40s)", Dt: 100 * time.Second, Enabled: func(m *model.State, _ map[string]int) bool { return elapsed(m) < 250 }},
+	)
+	return s
 }
 
 func withAnnotate(s *Scenario, f func(e *Exec, d *Disc, tx *model.Tx)) *Scenario {
